@@ -16,6 +16,7 @@
 #include <pistache/peer.h>
 #include <pistache/transport.h>
 
+#include <cerrno>
 #include <cstring>
 #include <ctime>
 #include <iomanip>
@@ -461,10 +462,17 @@ namespace Pistache::Http
                     if (!cursor.advance(1))
                         return Incomplete;
 
+                // Convert a terminated copy of the line: the buffer is not, and an
+                // empty line would make strtol() skip the CRLF as white space and
+                // read on. Only hexadecimal digits are allowed (no sign, no blank).
+                const std::string text = chunkSize.text();
+                if (text.empty() || !std::isxdigit(static_cast<unsigned char>(text[0])))
+                    throw std::runtime_error("Invalid chunk size");
+
                 char* end;
-                const char* raw = chunkSize.rawText();
-                auto sz         = std::strtol(raw, &end, 16);
-                if (*end != '\r')
+                errno   = 0;
+                auto sz = std::strtol(text.c_str(), &end, 16);
+                if (*end != '\0' || sz < 0 || errno == ERANGE)
                     throw std::runtime_error("Invalid chunk size");
 
                 // CRLF
